@@ -30,3 +30,27 @@ Definition c13_fun (s : string) (m : list (string * string)) (a b : string)
   res_eqb (list_eqb String.eqb) (list_tokens s) names &&
   res_eqb String.eqb (replace_lookup m s) rl &&
   res_eqb String.eqb (replace_token s a b) rt.
+
+(** Self-consistency of the well-formedness used by C13_relex on the lexer's own output:
+    every content token of [lex s] is [wf_tok]; [ops_safe] agrees with the reference decision
+    made with Python's tokenizer on the abutted texts ([dd]: two adjacent period tokens, where
+    [ops_safe] is deliberately conservative); and, when the content is well-formed, re-lexing the
+    untokenized stripped line gives it back (an instance of C13_relex, recomputed). *)
+From SFC.Lex Require Import Wf.
+Definition is_content (t : token) : bool :=
+  match fst t with NAME | NUMBER | STRING | OP => true | _ => false end.
+
+Definition c13_wf (s : string) (safe_py dd : bool) : bool :=
+  match lex s with
+  | Err _ => true
+  | Ok ts =>
+      let body := filter is_content ts in
+      forallb wf_tok body &&
+      (if dd then implb (ops_safe body) safe_py else Bool.eqb (ops_safe body) safe_py) &&
+      (if ops_safe body
+       then match lex (untok (strip ts)) with
+            | Ok ts' => list_eqb tok_eqb ts' (match strip ts with [(NL, _); e] => [e] | l => l end)
+            | Err _ => false
+            end
+       else true)
+  end.
